@@ -18,3 +18,5 @@ try:
 finally:
     subprocess.run(['git','-C','/repo','checkout','--','.'])
     subprocess.run(['git','-C','/repo','clean','-fdq'])
+    # binaries built from the mutated tree must not survive it
+    subprocess.run(['/verif/bin/check', cid, '--build-only'], capture_output=True)
